@@ -557,7 +557,7 @@ def build(t, env, reg=None, path=()):
         for j, col in enumerate(t["cols"]):
             obj.add_column(build(col["hdr"], env, reg, path + ("cols", j, "hdr")), build(col["ftr"], env, reg, path + ("cols", j, "ftr")),
                            justify=col.get("jus", "left"), overflow=col.get("ov", "ellipsis"), width=col["w"] or None,
-                           min_width=col["minw"] or None, max_width=col["maxw"] or None, ratio=col["ratio"] or None,
+                           min_width=col["minw"] or None, max_width=col["maxw"] or None, ratio=0 if col.get("rz") else (col["ratio"] or None),
                            no_wrap=col["nw"])
         for i, row in enumerate(t["rows"]):
             obj.add_row(*[build(c, env, reg, path + ("rows", i, j)) for j, c in enumerate(row)],
